@@ -138,11 +138,12 @@ PIN_INDEX["db"] = 6.0
 
 
 class LoadError(Exception):
-    def __init__(self, lineno, line, msg):
+    def __init__(self, lineno, line, msg, kind="other"):
         super().__init__(f"line {lineno}: {msg}: {line!r}")
         self.lineno = lineno
         self.line = line
         self.msg = msg
+        self.kind = kind  # 'label' / 'target' for label problems, 'other' otherwise
 
 
 _enum_tables = None
@@ -235,7 +236,7 @@ def load(text: str, lenient_names=frozenset()) -> Program:
             if not IDENT_RE.match(name):
                 raise LoadError(i, line, "malformed label")
             if name in prog.labels:
-                raise LoadError(i, line, f"label {name} defined twice")
+                raise LoadError(i, line, f"label {name} defined twice", "label")
             prog.labels[name] = i
         elif toks and toks[0] == "define":
             if len(toks) != 3 or not IDENT_RE.match(toks[1]):
@@ -301,7 +302,10 @@ def load(text: str, lenient_names=frozenset()) -> Program:
             elif k == "V":
                 args.append(value(tok, i, line, allow_label=True))
             elif k == "T":
-                args.append(value(tok, i, line, allow_label=True))
+                try:
+                    args.append(value(tok, i, line, allow_label=True))
+                except LoadError as e:
+                    raise LoadError(i, line, f"jump target {tok!r} is neither a defined label nor a number", "target")
             elif k == "D":
                 if PIN_RE.match(tok):
                     args.append(("pin", PIN_INDEX[tok]))
